@@ -32,10 +32,13 @@ LEAN = os.path.join(ROOT, "lean")
 # --with-repo) or a seed experiment point the whole machinery at another checkout without touching /repo.
 REPO = os.path.abspath(os.environ.get("SLT_REPO", "/repo"))
 HARNESS_SRC = os.path.join(ROOT, "harness")
-OUT = os.path.join(ROOT, "out")
-# with another tree the harness is built in its own directory (Cargo.toml with the other paths)
-HARNESS = HARNESS_SRC if REPO == "/repo" else os.path.join(OUT, "harness_alt")
-EVID = os.path.join(ROOT, "evidence")
+# with another tree the harness is built in its own directory (Cargo.toml with the other paths), and case
+# files, replays and evidence go to out/alt/ so that such an experiment never overwrites what a
+# registered run against /repo wrote
+OUT = os.path.join(ROOT, "out") if REPO == "/repo" else os.path.join(ROOT, "out", "alt")
+HARNESS = HARNESS_SRC if REPO == "/repo" else os.path.join(ROOT, "out", "harness_alt")
+EVID = os.path.join(ROOT, "evidence") if REPO == "/repo" else os.path.join(OUT, "evidence")
+os.makedirs(EVID, exist_ok=True)
 MODEL_BIN = os.path.join(LEAN, ".lake", "build", "bin", "sltmodel")
 HARNESS_BIN = os.path.join(HARNESS, "target", "release", "slt-harness")
 ALLOWED_AXIOMS = {"propext", "Classical.choice", "Quot.sound"}
